@@ -13,7 +13,7 @@ import (
 func init() {
 	register("C04", &propDef{
 		Title: "Every symlink left by Unpack resolves inside the destination",
-		Rules: []func(*Checker){ruleC04Guard, ruleC04Accept, ruleC04Lexical, ruleC04Relative("C04.relative"), rulePredSound("C04.pred"), rulePackerWriters("C04.allowlist"), ruleAllowBase("C04.allowbase"), aliasRule(ruleC01Walk, "C01.walk", "C04.placement", 3)},
+		Rules: []func(*Checker){ruleC04Guard, ruleC04Accept, ruleC04Lexical, ruleC04Relative("C04.relative"), rulePredSound("C04.pred"), rulePackerWriters("C04.allowlist"), ruleAllowBase("C04.allowbase"), aliasRule(ruleC01Walk, "C01.walk", "C04.placement", 3), ruleLinkEntriesJudged("C04.judged")},
 		NotDecided: []string{
 			"physical resolution through other links beyond the necessary condition C04.lexical checks (which entries exist when, chains of links) — a run-time / filesystem fact no sound static rule here decides",
 			"whether the validator distinguishes every spelling of absolute targets (string content)",
@@ -1769,7 +1769,7 @@ func ruleC05Resolve(id string) func(*Checker) {
 // C19.hops — the loop in Pack that follows a symlinked source is bounded.
 func ruleRootHops(id string) func(*Checker) {
 	return func(c *Checker) {
-		c.rule(id, "Every loop of the slug package whose body reads a link (os.Readlink) carries an integer that is incremented on every way round and compared with a constant inside the loop, the over-limit edge leaving the loop for an error return: a source that is a cycle of links otherwise keeps Pack in the loop forever.", 1)
+		c.rule(id, "Every loop of the slug package that follows links (its body calls os.Readlink on a value carried round the loop, and what it read goes into the value for the next round) carries an integer that is incremented on every way round and compared with a constant inside the loop, the over-limit edge leaving the loop for an error return: a source that is a cycle of links otherwise keeps Pack in the loop forever.", 1)
 		p := c.P
 		n := 0
 		for _, fn := range p.Funcs {
@@ -1781,7 +1781,6 @@ func ruleRootHops(id string) func(*Checker) {
 				if !inLoop(b) {
 					continue
 				}
-				n++
 				head := loopHeadOf(b)
 				body := map[*ssa.BasicBlock]bool{head: true}
 				for x := range reachFromBlock(head) {
@@ -1789,6 +1788,34 @@ func ruleRootHops(id string) func(*Checker) {
 						body[x] = true
 					}
 				}
+				// a loop that FOLLOWS links: what is read this time round decides what is read next time round
+				// (a loop over archive entries or directory entries that reads each one's link once is bounded
+				// by what it ranges over)
+				follows := false
+				cl, _ := ci.(*ssa.Call)
+				for _, in := range head.Instrs {
+					ph, ok := in.(*ssa.Phi)
+					if !ok || cl == nil {
+						continue
+					}
+					for i, e := range ph.Edges {
+						if !body[head.Preds[i]] {
+							continue
+						}
+						sl := p.backSlice(e, 0)
+						if sl[cl] {
+							for w := range p.backSlice(cl.Call.Args[0], 0) {
+								if w == ssa.Value(ph) {
+									follows = true
+								}
+							}
+						}
+					}
+				}
+				if !follows {
+					continue
+				}
+				n++
 				bounded := false
 				for _, in := range head.Instrs {
 					ph, ok := in.(*ssa.Phi)
@@ -2179,5 +2206,82 @@ func ruleWalkRoles(id string) func(*Checker) {
 		if root < len(nested.Call.Args) {
 			c.check(capturedParamOf(nested.Call.Args[root], g) == root, id, name, "nested walk keeps the root", p.Pos(nested.Pos()), rn(root)+" passed on", "the nested walk is given another directory as the slug root: its entries are named relative to the wrong place")
 		}
+	}
+}
+
+// ruleLinkEntriesJudged — every link entry is put to the validator.
+func ruleLinkEntriesJudged(id string) func(*Checker) {
+	return func(c *Checker) {
+		c.rule(id, "Partial evaluation of Unpack under Typeflag = TypeSymlink: from the constructor's ok edge every feasible path to the next entry or to a success return passes a call of the link validator (the (bool, error) function whose yes guards os.Symlink). A link entry that goes on without being judged — because a link of that name is already there, because the target looks harmless — leaves whatever is at that path in place and reports success: an escaping link survives an Unpack whose caller allow-listed nothing.", 1)
+		u := getUnpackCtx(c, id)
+		if u == nil {
+			return
+		}
+		p := c.P
+		ki := getKinds(c, u)
+		r := ki.Eval['2']
+		name := p.FuncName(u.Unpack)
+		if r == nil {
+			c.fail(id, name, "link entries judged", p.Pos(u.Unpack.Pos()), "Unpack could not be evaluated under the symlink kind")
+			return
+		}
+		// the validator: what guards the os.Symlink sites
+		validators := map[*ssa.Function]bool{}
+		for _, s := range fsSinkSites(u.ReachL) {
+			if s.Sink.Class != "symlink" {
+				continue
+			}
+			if v, _ := p.validatorGuard(s.Call, 2); v != nil {
+				validators[v.Common().StaticCallee()] = true
+			}
+		}
+		if len(validators) == 0 {
+			c.fail(id, name, "link entries judged", p.Pos(u.Unpack.Pos()), "no link validator guards os.Symlink (see C04.guard)")
+			return
+		}
+		judged := map[*ssa.BasicBlock]bool{}
+		for _, v := range u.VCalls {
+			if g := v.Inner.Common().StaticCallee(); g != nil && validators[g] {
+				judged[v.Site.Block()] = true
+			}
+		}
+		seen := map[*ssa.BasicBlock]bool{}
+		var off string
+		var walk func(b *ssa.BasicBlock)
+		walk = func(b *ssa.BasicBlock) {
+			if seen[b] || off != "" || judged[b] {
+				return
+			}
+			seen[b] = true
+			if b == u.CtorCall.Block() {
+				off = "goes on with the next entry"
+				return
+			}
+			for _, in := range b.Instrs {
+				if cl, ok := in.(*ssa.Call); ok {
+					if o := calleeObj(cl); o != nil && o.Name() == "Next" && objPkgPath(o) == "archive/tar" {
+						off = "goes on with the next entry"
+						return
+					}
+				}
+			}
+			if ret, ok := b.Instrs[len(b.Instrs)-1].(*ssa.Return); ok {
+				if mayReturnNilErr(ret) {
+					off = "reaches the success return at " + p.Pos(ret.Pos())
+				}
+				return
+			}
+			for _, s := range b.Succs {
+				if r.Edges[[2]*ssa.BasicBlock{b, s}] {
+					walk(s)
+				}
+			}
+		}
+		for _, e := range u.CtorOK {
+			if r.Edges[[2]*ssa.BasicBlock{e.From, e.To()}] {
+				walk(e.To())
+			}
+		}
+		c.check(off == "", id, name, "link entries judged", p.Pos(u.CtorCall.Pos()), "under the symlink kind every feasible path from the constructor's ok edge passes the validator before the next entry or a success return", "a symlink entry "+off+" without having been put to the link validator")
 	}
 }
